@@ -30,7 +30,7 @@ class Config:
         self.validator = validator
         self.code = code
         self.attrs = attrs
-        self.mode = mode            # 'trim' | 'group' | 'group-suffix' | 'plain'
+        self.mode = mode            # 'trim' | 'group' | 'group-suffix' | 'group-optional' | 'plain'
         self.rule = rule            # 'asc' | 'desc' | 'unique' | ('pattern', name)
         self.key_alphabet = key_alphabet
         self.inner_alphabet = inner_alphabet
@@ -57,6 +57,13 @@ def make_line(I, cfg, tag, spec):
     lead_alpha = [120, 32, 97] if cfg.mode == 'group' else [120, 32]
     trail_alpha = [59, 32] if cfg.mode == 'group' else [120, 32]
     bs = [I.fresh_byte('%s_w%d' % (tag, i), lead_alpha) for i in range(lead)]
+    if cfg.mode == 'group-optional':
+        # pattern z(?P<value>[ab]+)? : the group takes part only when letters follow the z; otherwise the
+        # key of the line is the whole match
+        off = len(bs)
+        key = [I.fresh_byte('%s_k%d' % (tag, i), cfg.key_alphabet) for i in range(klen)]
+        bs += [122] + key + [I.fresh_byte('%s_t%d' % (tag, i), trail_alpha) for i in range(trail)]
+        return tuple(bs), (tuple(key) if klen else (122,)), (off + 1 if klen else off)
     if klen == 0:
         bs += [I.fresh_byte('%s_t%d' % (tag, i), trail_alpha) for i in range(trail)]
         return tuple(bs), None, 0
@@ -124,6 +131,9 @@ def run_case(task):
     cfg, lay_spec, line_specs, want_sample = task
     # line_specs is one (spec0, specs, spec_last) triple or a list of them (several blocks in one file)
     block_specs = line_specs if isinstance(line_specs, list) else [line_specs]
+    # one configuration for all blocks, or one per block (blocks with different rules in one file)
+    cfgs = list(cfg) if isinstance(cfg, (list, tuple)) else [cfg] * len(block_specs)
+    cfg = cfgs[0]
     prog = driver.load_program()
     stats = PathStats()
     out = dict(violations=[], samples=[], obligations=0, cover={}, panic_paths=0)
@@ -137,16 +147,17 @@ def run_case(task):
         src = ()
         for bi, (spec0, specs, spec_last) in enumerate(block_specs):
             rows = []
-            t0, k0, o0 = make_line(I, cfg, 'B%dL0' % bi, spec0)
+            bcfg = cfgs[bi]
+            t0, k0, o0 = make_line(I, bcfg, 'B%dL0' % bi, spec0)
             rows.append((0, k0, o0))
             lines = []
             for i, sp in enumerate(specs):
-                l, k, o = make_line(I, cfg, 'B%dL%d' % (bi, i + 1), sp)
+                l, k, o = make_line(I, bcfg, 'B%dL%d' % (bi, i + 1), sp)
                 lines.append(l)
                 rows.append((i + 1, k, o))
-            ll, kl, ol = make_line(I, cfg, 'B%dLZ' % bi, spec_last)
+            ll, kl, ol = make_line(I, bcfg, 'B%dLZ' % bi, spec_last)
             rows.append((len(specs) + 1, kl, ol))
-            lay = Layout(lay_spec[0] if bi == 0 else 0, lay_spec[1], lay_spec[2], lay_spec[3], lay_spec[4], cfg.attrs,
+            lay = Layout(lay_spec[0] if bi == 0 else 0, lay_spec[1], lay_spec[2], lay_spec[3], lay_spec[4], bcfg.attrs,
                          t0, lines, ll, name='blk%d' % bi, base_line=base_line, base_off=base_off, tail=True)
             lays.append(lay)
             rows_all.append(rows)
@@ -173,7 +184,7 @@ def run_case(task):
         if I.check(cond):
             roles.add(role)
             m = I.solver.model()
-            out['violations'].append(dict(role=role, summary=summary, cfg=cfg.attrs, code=cfg.code,
+            out['violations'].append(dict(role=role, summary=summary, cfg=' | '.join(c.attrs for c in cfgs) if len(set(cfgs)) > 1 else cfg.attrs, code=cfg.code,
                                           src=model_bytes(m, holder['src']).decode('latin1')))
 
     for I, pk, val in explore(prog, models.M, run_path, stats=stats, max_paths=100000):
@@ -201,7 +212,7 @@ def run_case(task):
                     continue
                 ln, col, _bs = lay.content_lines[idx]
                 pos.append(((ln, col + off), (ln, col + off + len(k) - 1), k))
-            conds, none = offender_conditions(cfg, [p[2] for p in pos])
+            conds, none = offender_conditions(cfgs[bi], [p[2] for p in pos])
             first_line, last_line = lay.content_lines[0][0], lay.content_lines[-1][0]
             mine = [r for r in reported if first_line <= r[0][0] <= last_line]
             if len(mine) > 1:
@@ -222,6 +233,8 @@ def run_case(task):
         if len(reported) >= 2:
             out['cover']['two violating blocks in one file'] = 1
         out['cover']['mode:' + cfg.mode] = 1
+        if len(set(cfgs)) > 1:
+            out['cover']['blocks with different rules in one file'] = 1
         out['cover']['rule:' + (cfg.rule if isinstance(cfg.rule, str) else cfg.rule[1])] = 1
         if cfg.numeric:
             out['cover']['numeric'] = 1
@@ -279,7 +292,7 @@ def _ref_block(s, m, code):
         if pat:
             mm = re.search(pat.replace('$', r'\Z'), ln)
             if mm:
-                a, e = mm.span('value') if 'value' in mm.groupdict() else mm.span()
+                a, e = mm.span('value') if mm.groupdict().get('value') is not None else mm.span()
                 keys.append((ln[a:e], off + a, off + e - 1))
         else:
             t = ln.strip(RUST_WS)
@@ -350,6 +363,11 @@ def gen_tasks(rnd, configs, specs_for, nlines, per_cfg, min_keys=2):
         for i, ls in enumerate(two):
             other = two[(i + 1) % len(two)]
             tasks.append((cfg, (0, 0, 1, 0, 0), [((0, 0, 0), ls, (0, 0, 0)), ((0, 0, 0), other, (0, 0, 0))], i % 2 == 0))
+        # ... and with a different rule on the second block (state must not leak from block to block)
+        nxt = configs[(configs.index(cfg) + 1) % len(configs)]
+        if nxt is not cfg and nxt.numeric == cfg.numeric:
+            for i, ls in enumerate(two[:max(2, per_cfg // 25)]):
+                tasks.append(([cfg, nxt], (0, 0, 1, 0, 0), [((0, 0, 0), ls, (0, 0, 0)), ((0, 0, 0), ls, (0, 0, 0))], False))
     return tasks
 
 
